@@ -433,22 +433,24 @@ def structLevelsAbove : List Meaning → Nat
   | .allValidItem :: ms => structLevelsAbove ms
   | _ => 0
 
+/-- (null_level, empty_level, number of def levels used) of `unravel_offsets` for a list layer when
+    `current_def_cmp = validLevel`; `none` for a non-list layer (`unreachable!()`) -/
+def unravelLevels (validLevel : Nat) : Meaning → Option (Nat × Nat × Nat)
+  | .nullableList => some (validLevel + 1, 0, 1)
+  | .emptyableList => some (0, validLevel + 1, 1)
+  | .nullableAndEmptyableList => some (validLevel + 1, validLevel + 2, 2)
+  | .allValidList => some (0, 0, 0)
+  | _ => none
+
 /-- `RepDefUnraveler::unravel_offsets`: appends to `offsets` (after popping its last element) and to `validity` -/
 def Unr.unravelOffsets (u : Unr) (offsets : List Nat) (validity : Option (List Bool)) :
     Option (Unr × List Nat × Option (List Bool)) :=
   match u.rep, u.meaning[u.layer]? with
   | some rep, some m =>
-    let validLevel := u.defCmp
-    let lv? : Option (Nat × Nat × Nat) := match m with
-      | .nullableList => some (validLevel + 1, 0, 1)
-      | .emptyableList => some (0, validLevel + 1, 1)
-      | .nullableAndEmptyableList => some (validLevel + 1, validLevel + 2, 2)
-      | .allValidList => some (0, 0, 0)
-      | _ => none
-    match lv? with
+    match unravelLevels u.defCmp m with
     | none => none
     | some (nullLevel, emptyLevel, used) =>
-      let upperNull := max (max nullLevel emptyLevel) validLevel
+      let upperNull := max (max nullLevel emptyLevel) u.defCmp
       let maxLevel := upperNull + structLevelsAbove (u.meaning.drop (u.layer + 1))
       let curlen := offsets.getLast?.getD 0
       let offs0 := offsets.dropLast
